@@ -25,6 +25,11 @@ FOCUS = {
   - resources of the PROCESS: thread pools and event loops that are not shut down, tasks that are left pending, threads created per node, recursion depth on long chains (1000 nodes), quadratic behaviour that turns into a hang for 2000 nodes - when this breaks the property as stated.""",
     7: """This is the SEVENTH round for this property; single features have been covered thoroughly (see the list below). This round is about FEATURE INTERACTIONS: make a SMALL and SUBTLE change (ideally <= 6 changed lines) that is harmless for every feature on its own and only breaks the property when TWO (or three) features are combined - the combination must be legal and plausible. Features to combine: nested DAGs (a DAG called inside a DAG, several levels, the same inner DAG in two outer DAGs), reused functions (ids f, f<<1>>, ... also inside nested DAGs: prefixed ids), tags (decorator tag, twz_tag at the call site, tuple tags, tags on nodes of nested DAGs), selections by id / tag / node reference (executor target / exclude / root, setup(target_nodes), cache_deps_of, compose inputs / outputs, config keys) - in particular selecting nodes INSIDE a nested DAG by their prefixed id, setup nodes, debug nodes (RUN_DEBUG_NODES on and off), activation flags (constants, arguments, results, keyed results, and_/or_/not_ expressions), unpack_to / twz_unpack_to, operators on results, defaults of DAG parameters, keyword arguments, the three resources, is_sequential, priorities (compound priorities across nested DAGs), max_concurrency, AsyncDAG, executors (single use, results attribute), caching (cache_in / from_cache / cache_deps_of), compose, configuration reload (dict / yaml / json, by id / by tag), deep copies of DAGs, profiling of all nodes, failures (exceptions in nodes) and retries.
 Examples of the kind of interaction meant (do not use these literally): a setup node inside a nested DAG selected through an executor of the outer DAG; a debug node that carries a tag used in exclude_nodes; a flagged node whose result is unpacked by twz_unpack_to and cached; a composed DAG that is then re-configured by tag; profiling switched on while a node fails; a deep-copied DAG whose executor is started from the cache file of the original.""",
+    8: """This is the EIGHTH round for this property; code paths, configurations, histories and feature interactions have been covered thoroughly (see the list below). This round is about DATA and IDENTITY: make a SMALL and SUBTLE change (ideally <= 6 changed lines) whose effect depends on the VALUES, NAMES or OBJECTS that flow through the library, and that is invisible with the small integers / short strings and the simple names that tests normally use. Kinds of dependence meant:
+  - values: None, False, 0, "", empty tuple / list / dict as argument, default, constant, result, flag or dictionary key; NaN and objects whose `==` is not reflexive, or returns a non-bool (numpy-like), or raises; equal but not identical objects (1 == 1.0 == True, "a" vs a str subclass); unhashable values (lists, dicts) where a hash is suddenly needed; very large values; exception instances / exception classes / tawazi's own objects (ExecNode, UsageExecNode, DAG, NoVal-like sentinels, Ellipsis) used as ordinary values; objects with their own `__getitem__` / `__iter__` / `__len__` / `__bool__` / `__call__` / `__getattr__` / `__deepcopy__` / `__reduce__`;
+  - names: functions with the same `__name__` in different modules / classes (qualnames), lambdas, names that are prefixes of each other, 10+ usages (f<<9>> / f<<10>>), parameter names equal to node names or to tag names, a DAG parameter called like an option (`twz_tag`...), tags that are tuples / equal to an id / not strings, dotted names inside nested DAGs;
+  - order and identity: iteration order of dicts / sets / sorted() ties (string vs insertion order, dependence on PYTHONHASHSEED), `is` vs `==`, shallow vs deep copies leading to state shared between two DAG objects / two calls / two executors, ids of objects re-used after garbage collection, caching keyed by id / name / hash, results kept alive or dropped too early, mutation of an argument or a default in place by the library.
+The violation must be shown through the public behaviour named in the property (not just "an internal attribute differs").""",
 }
 
 
